@@ -25,12 +25,16 @@ META = {
     "title": "Incremental uploads keep the remote directory equal to the uploaded tree",
     "technique": ("Coq theorems over a hand model of plugins/upload/cmds.py (compiler to uploader commands + interpreter over an "
                   "abstract remote file system) + correspondence on commit sequences uploaded by the real BzrUploader"),
-    "level_text": ("Proved for every pair of trees and every remote: the rename staging through fresh temporaries realises the "
-                   "simultaneous (swap/cycle/chain, directories with their content) renaming; with the deferred deletions, kind "
-                   "changes, additions and modifications the incremental upload turns a remote equal to the old tree into one "
-                   "equal to the new tree whenever the executable guard upload_guard holds; full upload onto an empty remote is "
-                   "exact; ignored paths and the marker are only touched as stated. The unguarded statement is REFUTED by "
-                   "machine-checked witnesses that were replayed on the real uploader (candidate defects)."),
+    "level_text": ("Proved in Coq (unbounded, any remote): sequential renames realise the simultaneous move of sub-trees, so the "
+                   "staging through fresh temporaries realises every swap/cycle/chain of files and of directories with their "
+                   "content; with the deferred deletions, kind changes, additions and modifications the incremental upload turns "
+                   "a remote equal to the old tree into one equal to the new tree, marker updated, whenever the executable guard "
+                   "upload_guard holds (C43_incremental_exact_guarded), and so does any sequence of guarded uploads; full upload "
+                   "onto an empty remote is exact; an upload changes nothing outside the sub-trees of the paths it names, which "
+                   "are never ignored paths (up to renames across the ignore boundary), and writes the marker last. The "
+                   "unguarded statement is REFUTED by 12 machine-checked witnesses, all replayed on the real uploader "
+                   "(candidate defects). On the generated uploads the guard holds exactly when none of the refuted change "
+                   "patterns occurs (and no ignore list is in force)."),
     "level_note": ("Trusted: Coq kernel, vm_compute; the hand model's correspondence (bounded: sequences of <=6 commits over 6 "
                    "names); the LocalTransport/POSIX behaviour as modelled in Lib/FS43.v; fresh temporary names."),
     "design_ref": "DESIGN.md §5 C43",
@@ -565,6 +569,9 @@ def corpus():
     out.append(seq([F(9, IGN, "c\n"), F(1, "a", "A")], [F(9, IGN, "c\n"), F(1, "a", "A"), F(2, "c", "C"), D(3, "d"), F(4, "d/c", "x")]))
     out.append(seq([F(9, IGN, "c\n"), D(1, "c"), F(2, "c/a", "A"), F(3, "b")], [F(9, IGN, "c\n"), D(1, "c"), F(2, "c/a", "B"), F(3, "a")]))
     out.append(seq([F(1, "a", "A")], [F(9, IGN, "a\n"), F(1, "a", "B")], [F(9, IGN, "a\nb\n"), F(1, "b", "B")]))
+    # an entry moved to an ignored name is never deleted again: its directory cannot be removed
+    out.append(seq([F(9, IGN, "c\n"), D(1, "d"), F(2, "d/a", "A")], [F(9, IGN, "c\n"), D(1, "d"), F(2, "d/c", "A")],
+                   [F(9, IGN, "c\n")]))
     return out
 
 
@@ -731,7 +738,7 @@ def _exhaustive_dir():
 def cases(rng, tier):
     yield from _exhaustive_flat()
     yield from _exhaustive_dir()
-    for _ in range(150 if tier == "quick" else 2000):
+    for _ in range(200 if tier == "quick" else 1600):
         yield _random_seq(rng, tier)
 
 
